@@ -141,7 +141,7 @@ augment = Contract("augment", AUG_PARAMS, requires=AUG_REQUIRES, ensures=AUG_ENS
 AUG_FINGERPRINT = {"for#0": "for v in bigraph[u]"}
 
 # max_bipartite_matching2(bigraph): the result is a matching of bigraph with len(result) = 1 + largest V index
-NV_STMT = "nV = max((max(adjlist, default=-1) for adjlist in bigraph)) + 1"
+NV_STMT = "nV = max((max(adjlist, default=-1) for adjlist in bigraph), default=-1) + 1"     # (default=-1 on the outer max since repo fix 36fb915: a graph without U vertices)
 MBM2_LOOP = [
     ("M0-shape", "len(match) == nV and nU == len(bigraph)"),
     ("M1-matched-pairs-are-edges", VALID),
